@@ -27,6 +27,18 @@ def sh(cmd, cwd=None, env=None, timeout=900):
     return p.returncode, (p.stdout + p.stderr)
 
 
+def restore_repo():
+    """Undo an applied patch; retried, because a concurrent git command may hold the index lock."""
+    import time
+    for _ in range(20):
+        sh("git -C /repo checkout -- .")
+        rc, st = sh("git -C /repo status --porcelain --untracked-files=no")
+        if rc == 0 and not st.strip():
+            return
+        time.sleep(0.5)
+    raise SystemExit("could not restore /repo: %s" % st)
+
+
 def suite(wt):
     rc, out = sh("%s -m pytest -q -p no:cacheprovider --color=no -x tests 2>&1 | tail -3" % PY, cwd=wt)
     m = re.search(r"(\d+) passed", out)
@@ -88,7 +100,7 @@ def main():
         try:
             res = run_checks(prop)
         finally:
-            sh("git -C /repo checkout -- .")
+            restore_repo()
         fired = {c: r for c, r in res.items() if r["exit"] == 1}
         errored = {c: r for c, r in res.items() if r["exit"] == 2}
         print("   target %s: exit %d %s" % (prop, res[prop]["exit"], res[prop]["rules"]))
